@@ -1676,6 +1676,11 @@ func funcSym(fn *ssa.Function) string {
 
 func (vc *VC) callStatic(fr *Frame, st *State, fn *ssa.Function, args []Val, bind []Val, pos token.Pos) []Outcome {
 	full := fn.String()
+	if fr != nil && fr.parent == nil && fr.contract != nil && fr.contract.Delegates != nil {
+		if outs, ok := vc.delegateCall(fr, st, fn, args, pos); ok {
+			return outs
+		}
+	}
 	if h, ok := extHandlers[full]; ok {
 		return h(vc, fr, st, args, pos)
 	}
